@@ -90,8 +90,31 @@ macro_rules! read_expect {
     }};
 }
 
+/// the typed expect helper asked for ANOTHER message type than the one on the wire: it must answer with the opcode error having
+/// consumed exactly the announced bytes
+macro_rules! read_expect_other {
+    ($exp:ident, server, $cur:expr) => {{
+        match wow_world_messages::$exp::expect_server_message::<wow_world_messages::$exp::SMSG_PONG, _>(&mut $cur) {
+            Ok(_) => Err("err unexpected-ok".to_string()),
+            Err(e) => Err(err_kind(&e)),
+        }
+    }};
+    ($exp:ident, client, $cur:expr) => {{
+        match wow_world_messages::$exp::expect_client_message::<wow_world_messages::$exp::CMSG_PING, _>(&mut $cur) {
+            Ok(_) => Err("err unexpected-ok".to_string()),
+            Err(e) => Err(err_kind(&e)),
+        }
+    }};
+}
+
 pub fn read_frame(exp: &str, dir: &str, api: &str, cur: &mut Cursor<&[u8]>) -> Result<(u32, Vec<u8>), String> {
     match (exp, dir, api) {
+        ("vanilla", "server", "expectother") => read_expect_other!(vanilla, server, *cur),
+        ("tbc", "server", "expectother") => read_expect_other!(tbc, server, *cur),
+        ("wrath", "server", "expectother") => read_expect_other!(wrath, server, *cur),
+        ("vanilla", "client", "expectother") => read_expect_other!(vanilla, client, *cur),
+        ("tbc", "client", "expectother") => read_expect_other!(tbc, client, *cur),
+        ("wrath", "client", "expectother") => read_expect_other!(wrath, client, *cur),
         ("vanilla", "server", "enum") => read_enum!(vanilla, server, *cur),
         ("tbc", "server", "enum") => read_enum!(tbc, server, *cur),
         ("wrath", "server", "enum") => read_enum!(wrath, server, *cur),
@@ -138,7 +161,15 @@ pub fn seq(exp: &str, dir: &str, api: &str, lens: &str) -> String {
     let mut cur = Cursor::new(stream.as_slice());
     let mut out = String::from("ok");
     for (i, l) in lens.iter().enumerate() {
-        match read_frame(exp, dir, api, &mut cur) {
+        if api == "expectother" && i % 2 == 1 {
+            // every second message is asked for as another type: the opcode error must leave the stream at the next message
+            match read_frame(exp, dir, "expectother", &mut cur) {
+                Err(e) if e.starts_with("err opcode") => { out.push_str(&format!(" skip@{}", cur.position())); continue; }
+                Err(e) => return format!("{out} then {e} at {}", cur.position()),
+                Ok(_) => return format!("{out} then unexpected-ok at {}", cur.position()),
+            }
+        }
+        match read_frame(exp, dir, if api == "expectother" { "expect" } else { api }, &mut cur) {
             Ok((_, got)) => {
                 let good = got == body(*l, i as u8);
                 out.push_str(&format!(" {}{}@{}", got.len(), if good { "" } else { "!" }, cur.position()));
